@@ -238,6 +238,7 @@ func cmdCheck(id, tier string) int {
 	inconclusive := []string{}
 	violations := 0
 	knownSeen := map[string]bool{}
+	knownFail := map[string][]string{}
 	replayed := 0
 	rp := newReplayer(m, id)
 	os.RemoveAll(filepath.Join(verifDir, "replays", id))
@@ -296,9 +297,14 @@ func cmdCheck(id, tier string) int {
 					knownSeen[fid] = true
 					fmt.Printf("KNOWN-FINDING: property=%s %s %s (replay=%s)\n", id, fid, known[fid].What, path)
 				} else {
-					inconclusive = append(inconclusive, fmt.Sprintf("%s: known finding %s did not reproduce natively (%s): %s", h.fn, fid, path, lastLines(out, 6)))
+					knownFail[fid] = append(knownFail[fid], fmt.Sprintf("%s: known finding %s did not reproduce natively (%s): %s", h.fn, fid, path, lastLines(out, 6)))
 				}
 			}
+		}
+	}
+	for fid, msgs := range knownFail {
+		if !knownSeen[fid] {
+			inconclusive = append(inconclusive, msgs[0])
 		}
 	}
 	rp.close()
